@@ -1300,6 +1300,14 @@ func run(r *hx.Run) error {
 			if has {
 				st.emitText(sb.String(), 0, 4, 0, []int{1})
 				st.emitHard(sb.String())
+				if len(prefix) <= 3 {
+					// round 3: the two hard-wrap widgets on the same texts (text.hardLines / HardwrapScanner
+					// must break at CR and CRLF as the property oracle does; rows clipped at Max.Height 1)
+					for _, w := range []int{1, 3} {
+						st.emitDrawHard(sb.String(), w, 6, 0, []int{1, 2})
+						st.emitDrawTextHard(sb.String(), w, 6-5*(w%3%2), 1)
+					}
+				}
 				r.Count("crlf-family")
 			}
 		}
